@@ -8,11 +8,14 @@
        m = fl(a * n)      in [0, n]           (n < 2^53 is a float)
        s = fl(m + 1/2)    in [0, n + 1/2]     (n + 1/2 is a float for n < 2^52)
        floor s            in [0, n].
+   The same argument gives the statement for ANY float64 threshold with |pct| <= 100
+   (rank_float_in_range; the comparison is false for NaN and infinities).
    Axioms: the classical real numbers of the standard library (through Flocq) and the
    specifications of the primitive float operations (Floats.FloatAxioms). *)
 From Coq Require Import ZArith Reals Floats Lia Lra Uint63.
 From Flocq Require Import Core.Core IEEE754.BinarySingleNaN IEEE754.PrimFloat.
-From GS Require Import Base.GoFloat Model.Rank.
+From GS Require Import Base.GoFloat.
+From GS Require Import Model.Rank.
 Local Open Scope Z_scope.
 
 Notation fx := (SpecFloat.fexp prec emax).
@@ -85,18 +88,17 @@ Proof.
   destruct H as (H1 & H2 & _). rewrite H1, H2. split; [exact F1|exact R0].
 Qed.
 
-(* ... * count *)
-Lemma scaled_fin p n : -100 <= p <= 100 -> 0 <= n < 2^53 -> fin_in (rank_scaled p n) 0 (IZR n).
+(* a * count, for any float a in [0, 1] *)
+Lemma scaled_fin_gen a n : fin_in a 0 1 -> 0 <= n < 2^53 -> fin_in (a * f64_of_int n)%float 0 (IZR n).
 Proof.
-  intros Hp Hn. unfold rank_scaled.
-  destruct (fraction_fin p Hp) as [F1 [L1 U1]]. destruct (of_int_fin n Hn) as [F2 [L2 U2]].
+  intros [F1 [L1 U1]] Hn. destruct (of_int_fin n Hn) as [F2 [L2 U2]].
   assert (V2 : B2R (Prim2B (f64_of_int n)) = IZR n) by lra.
   unfold fin_in. rewrite mul_equiv.
-  pose proof (Bmult_correct prec emax Hprec Hmax mode_NE (Prim2B (rank_fraction p)) (Prim2B (f64_of_int n))) as H.
+  pose proof (Bmult_correct prec emax Hprec Hmax mode_NE (Prim2B a) (Prim2B (f64_of_int n))) as H.
   rewrite V2 in H. change (round_mode mode_NE) with ZnearestE in H.
   assert (N0 : (0 <= IZR n)%R) by (apply IZR_le; lia).
-  set (a := B2R (Prim2B (rank_fraction p))) in *.
-  assert (R0 : (0 <= rnd (a * IZR n) <= IZR n)%R).
+  set (ra := B2R (Prim2B a)) in *.
+  assert (R0 : (0 <= rnd (ra * IZR n) <= IZR n)%R).
   { split.
     - rewrite <- rnd_0. apply rnd_le. apply Rmult_le_pos; lra.
     - rewrite <- (rnd_id (IZR n)) at 2 by (apply format_int; lia). apply rnd_le. nra. }
@@ -112,17 +114,16 @@ Proof.
   rewrite S. split; [reflexivity|]. unfold SF2R, F2R; cbn. lra.
 Qed.
 
-(* ... + 0.5 *)
-Lemma shifted_fin p n : -100 <= p <= 100 -> 0 <= n < 2^52 -> fin_in (rank_shifted p n) 0 (IZR n + / 2).
+(* ... + 0.5, for any float m in [0, n] *)
+Lemma shifted_fin_gen m n : fin_in m 0 (IZR n) -> 0 <= n < 2^52 -> fin_in (m + half)%float 0 (IZR n + / 2).
 Proof.
-  intros Hp Hn. unfold rank_shifted.
-  destruct (scaled_fin p n Hp ltac:(lia)) as [F1 [L1 U1]]. destruct half_fin as [F2 [L2 U2]].
+  intros [F1 [L1 U1]] Hn. destruct half_fin as [F2 [L2 U2]].
   assert (V2 : B2R (Prim2B half) = (/ 2)%R) by lra.
   unfold fin_in. rewrite add_equiv.
-  pose proof (Bplus_correct prec emax Hprec Hmax mode_NE (Prim2B (rank_scaled p n)) (Prim2B half) F1 F2) as H.
+  pose proof (Bplus_correct prec emax Hprec Hmax mode_NE (Prim2B m) (Prim2B half) F1 F2) as H.
   rewrite V2 in H. change (round_mode mode_NE) with ZnearestE in H.
-  set (m := B2R (Prim2B (rank_scaled p n))) in *.
-  assert (R0 : (0 <= rnd (m + / 2) <= IZR n + / 2)%R).
+  set (rm := B2R (Prim2B m)) in *.
+  assert (R0 : (0 <= rnd (rm + / 2) <= IZR n + / 2)%R).
   { split.
     - rewrite <- rnd_0. apply rnd_le. lra.
     - apply Rle_trans with (rnd (IZR n + / 2)%R); [apply rnd_le; lra|]. rewrite rnd_id by (apply format_half; lia). lra. }
@@ -165,5 +166,49 @@ Qed.
 Theorem rank_in_range_unbounded p n :
   -100 <= p <= 100 -> 0 <= n < 2^52 -> 0 <= rank p n <= n.
 Proof.
-  intros Hp Hn. unfold rank. apply floor_int_range; [lia|]. apply shifted_fin; assumption.
+  intros Hp Hn. unfold rank, rank_shifted, rank_scaled. apply floor_int_range; [lia|].
+  apply shifted_fin_gen; [|exact Hn]. apply scaled_fin_gen; [apply fraction_fin; exact Hp|lia].
+Qed.
+
+(* ---- any float64 threshold with |pct| <= 100 (the comparison is false for NaN) *)
+
+Lemma hundred_fin : f64_of_int 100 = 100%float.
+Proof. vm_compute. reflexivity. Qed.
+
+Lemma abs_le_100 pct : (abs pct <=? f64_of_int 100)%float = true ->
+  is_finite (Prim2B (abs pct)) = true /\ (0 <= B2R (Prim2B (abs pct)) <= 100)%R.
+Proof.
+  intros H. rewrite leb_equiv, abs_equiv in H. rewrite abs_equiv.
+  destruct (of_int_fin 100) as [F2 [L2 U2]]; [lia|].
+  assert (V2 : B2R (Prim2B (f64_of_int 100)) = 100%R) by lra.
+  assert (Fa : is_finite (Babs (Prim2B pct)) = true).
+  { destruct (Prim2B pct) as [s|s| |s m e B]; try reflexivity; exfalso.
+    - unfold Bleb in H. cbn [Babs B2SF] in H. rewrite B2SF_Prim2B, hundred_fin in H. vm_compute in H. discriminate H.
+    - unfold Bleb in H. cbn [Babs B2SF] in H. discriminate H. }
+  split; [exact Fa|]. rewrite (Bleb_correct _ _ _ _ Fa F2), V2 in H.
+  destruct (Rle_bool_spec (B2R (Babs (Prim2B pct))) 100) as [H'|H']; [|discriminate H].
+  rewrite B2R_Babs in *. split; [apply Rabs_pos|exact H'].
+Qed.
+
+Lemma fraction_float_fin pct : (abs pct <=? f64_of_int 100)%float = true -> fin_in (abs pct / f64_of_int 100)%float 0 1.
+Proof.
+  intros Hle. destruct (abs_le_100 pct Hle) as [F1 [L1 U1]]. destruct (of_int_fin 100) as [F2 [L2 U2]]; [lia|].
+  assert (V2 : B2R (Prim2B (f64_of_int 100)) = 100%R) by lra.
+  unfold fin_in. rewrite div_equiv.
+  pose proof (Bdiv_correct prec emax Hprec Hmax mode_NE (Prim2B (abs pct)) (Prim2B (f64_of_int 100))) as H.
+  rewrite V2 in H. specialize (H ltac:(lra)). change (round_mode mode_NE) with ZnearestE in H.
+  set (x := B2R (Prim2B (abs pct))) in *.
+  assert (R0 : (0 <= rnd (x / 100) <= 1)%R).
+  { split.
+    - rewrite <- rnd_0. apply rnd_le. lra.
+    - rewrite <- (rnd_id 1%R) by (apply (format_int 1); lia). apply rnd_le. lra. }
+  rewrite no_overflow in H by (rewrite Rabs_pos_eq by lra; apply Rle_trans with 1%R; [lra|apply IZR_le; lia]).
+  destruct H as (H1 & H2 & _). rewrite H1, H2. split; [exact F1|exact R0].
+Qed.
+
+Theorem rank_float_in_range pct n :
+  (abs pct <=? f64_of_int 100)%float = true -> 0 <= n < 2^52 -> 0 <= rank_float pct n <= n.
+Proof.
+  intros Hp Hn. unfold rank_float. apply floor_int_range; [lia|].
+  apply shifted_fin_gen; [|exact Hn]. apply scaled_fin_gen; [apply fraction_float_fin; exact Hp|lia].
 Qed.
